@@ -430,9 +430,12 @@ class HTTPChannel(wasyncore.dispatcher):
             task = self.task_class(self, request)
 
         try:
-            if self.connected:
+            if self.connected and not self.will_close:
                 task.service()
             else:
+                # the client is gone, or the connection has already been
+                # marked for closing (e.g. a send error while flushing the
+                # previous response): do not execute anything more on it
                 task.close_on_finish = True
         except ClientDisconnected:
             self.logger.info("Client disconnected while serving %s" % task.request.path)
